@@ -176,3 +176,39 @@ pub const K_MAGIC: u64 = epserde::MAGIC;
 pub const K_MAGIC_REV: u64 = epserde::MAGIC_REV;
 pub const K_VERSION_MAJOR: u16 = epserde::VERSION.0;
 pub const K_VERSION_MINOR: u16 = epserde::VERSION.1;
+
+// ---------------------------------------------------------------- C17: a hand-written type that declares itself zero-copy
+// (CopyType = Zero, Copy, MaxSizeOf) but whose IS_ZERO_COPY is false; and a derived zero-copy struct holding it.
+#[derive(Debug, Clone, Copy, PartialEq)]
+#[repr(C)]
+pub struct FakeZero { pub p: &'static [u8] }
+impl epserde::traits::CopyType for FakeZero { type Copy = epserde::traits::Zero; }
+impl epserde::traits::MaxSizeOf for FakeZero { fn max_size_of() -> usize { core::mem::align_of::<Self>() } }
+impl epserde::traits::TypeHash for FakeZero { fn type_hash(hasher: &mut impl core::hash::Hasher) { use core::hash::Hash; "FakeZero".hash(hasher); } }
+impl epserde::traits::AlignHash for FakeZero { fn align_hash(_h: &mut impl core::hash::Hasher, _o: &mut usize) {} }
+impl SerializeInner for FakeZero {
+    type SerType = Self;
+    const IS_ZERO_COPY: bool = false;
+    const ZERO_COPY_MISMATCH: bool = false;
+    fn _serialize_inner(&self, backend: &mut impl epserde::ser::WriteWithNames) -> epserde::ser::Result<()> {
+        epserde::ser::helpers::serialize_zero(backend, self)
+    }
+}
+impl DeserializeInner for FakeZero {
+    type DeserType<'a> = &'a FakeZero;
+    fn _deserialize_full_inner(backend: &mut impl epserde::deser::ReadWithPos) -> epserde::deser::Result<Self> {
+        epserde::deser::helpers::deserialize_full_zero::<Self>(backend)
+    }
+    fn _deserialize_eps_inner<'a>(backend: &mut epserde::deser::SliceWithPos<'a>) -> epserde::deser::Result<Self::DeserType<'a>> {
+        epserde::deser::helpers::deserialize_eps_zero::<Self>(backend)
+    }
+}
+#[derive(Epserde, Debug, Clone, Copy, PartialEq)]
+#[repr(C)]
+#[zero_copy]
+pub struct HoldsFake { pub k: u32, pub f: FakeZero }
+pub const ZC_FAKEZERO: bool = <FakeZero as SerializeInner>::IS_ZERO_COPY;
+pub const ZC_HOLDSFAKE: bool = <HoldsFake as SerializeInner>::IS_ZERO_COPY;
+pub const ZC_VEC_FAKE: bool = <Vec<FakeZero> as SerializeInner>::IS_ZERO_COPY;
+pub const ZC_ARR_FAKE: bool = <[FakeZero; 2] as SerializeInner>::IS_ZERO_COPY;
+pub const ZC_ZNAMED_ARR: bool = <[ZNamed; 2] as SerializeInner>::IS_ZERO_COPY;
